@@ -238,6 +238,33 @@ def _matmul(a, b):
     return einsum("...ij,...jk->...ik", a, b)
 
 
+def _elementwise(f, a):
+    if isinstance(a, np.ndarray):
+        out = np.empty(a.shape, dtype=object)
+        for idx in np.ndindex(a.shape):
+            out[idx] = f(a[idx])
+        return out if out.shape else out[()]
+    return f(a)
+
+
+def _prod(a):
+    out = sp.Integer(1)
+    for x in np.asarray(a, dtype=object).ravel():
+        out = out * x
+    return out
+
+
+def _as_bool(c):
+    a = np.asarray(c, dtype=object)
+    out = np.empty(a.shape, dtype=bool)
+    for idx in np.ndindex(a.shape):
+        v = a[idx]
+        if not isinstance(v, (bool, np.bool_)):
+            raise Unsupported(f"np.where on a condition that is not a concrete boolean ({v!r})")
+        out[idx] = bool(v)
+    return out
+
+
 def _np_array(a):
     """np.array of a (nested) sequence of object arrays / scalars: all parts must have one shape"""
     if isinstance(a, (list, tuple)):
@@ -270,9 +297,9 @@ NP_FUNCS: dict[str, Callable] = {
     "zeros": _zeros,
     "empty_like": lambda a, **kw: _empty(np.shape(a)),
     "zeros_like": lambda a, **kw: _zeros(np.shape(a)),
-    "asarray": lambda a, **kw: a,
-    "asanyarray": lambda a, **kw: a,
-    "array": lambda a, **kw: _np_array(a),
+    "asarray": lambda a, *dt, **kw: a if isinstance(a, np.ndarray) else _np_array(a),
+    "asanyarray": lambda a, *dt, **kw: a if isinstance(a, np.ndarray) else _np_array(a),
+    "array": lambda a, *dt, **kw: _np_array(a).copy() if isinstance(a, np.ndarray) else _np_array(a),
     "tensordot": _tensordot,
     "matmul": _matmul,
     "dot": lambda a, b: _matmul(a, b) if np.ndim(b) <= 1 or np.ndim(a) <= 1 else einsum("...j,jk->...k", a, b) if np.ndim(b) == 2 else (_ for _ in ()).throw(Unsupported("np.dot with nd second operand")),
@@ -284,8 +311,14 @@ NP_FUNCS: dict[str, Callable] = {
     "broadcast_arrays": lambda *a: [np.asarray(x, dtype=object) for x in np.broadcast_arrays(*[np.asarray(x, dtype=object) for x in a])],
     "reshape": lambda a, shape: np.reshape(np.asarray(a, dtype=object), shape),
     "ndindex": lambda *shape: list(np.ndindex(*shape)),
+    "abs": lambda a: _elementwise(sp.Abs, a),
+    "absolute": lambda a: _elementwise(sp.Abs, a),
+    "where": lambda c, a, b: np.where(np.asarray(_as_bool(c)), np.asarray(a, dtype=object), np.asarray(b, dtype=object)),
+    "atleast_1d": lambda a: np.atleast_1d(np.asarray(a, dtype=object)),
+    "outer": lambda a, b: np.multiply.outer(np.asarray(a, dtype=object).ravel(), np.asarray(b, dtype=object).ravel()),
+    "prod": lambda a, **kw: _prod(a),
 }
-NP_CONSTS = {"newaxis": None, "pi": sp.pi}  # np.ndarray is added below (needs KindRef)
+NP_CONSTS = {"newaxis": None, "pi": sp.pi, "double": "float64", "float64": "float64", "bool_": "bool", "inf": sp.oo}  # np.ndarray is added below (needs KindRef)
 
 
 class NpModule:
@@ -586,8 +619,10 @@ class NpSem:
                 return l / r
             if isinstance(op, ast.FloorDiv) and isinstance(l, int) and isinstance(r, int):
                 return l // r
-            if isinstance(op, ast.Mod) and isinstance(l, int) and isinstance(r, int):
-                return l % r
+            if isinstance(op, ast.Mod):
+                if isinstance(l, str):
+                    self.fail(node, "string formatting with %")
+                return l % r  # ints: python; sympy terms / object arrays: Mod (python/numpy sign convention)
             if isinstance(op, ast.Pow):
                 return l**r
             if isinstance(op, ast.MatMult):
@@ -919,9 +954,15 @@ class NpSem:
             kind = ("NoneType",)
         elif isinstance(obj, np.ndarray):
             kind = ("ndarray",)
+        elif isinstance(obj, (int, float, str, tuple, list, dict, sp.Basic)):
+            kind = (type(obj).__name__,)
         if kind is None:
             self.fail(node, f"isinstance on {obj!r}")
         for c in clss:
+            if isinstance(c, str) and c in ("int", "float", "str", "tuple", "list", "dict", "bool"):
+                if isinstance(obj, {"int": int, "float": float, "str": str, "tuple": tuple, "list": list, "dict": dict, "bool": bool}[c]) and not (c == "int" and isinstance(obj, bool)):
+                    return True
+                continue
             if isinstance(c, KindRef):
                 if c.name in kind:
                     return True
